@@ -438,6 +438,39 @@ C10_output(d, prev, step) ==
      /\ step.obs.wf = "canceled"
      /\ (Len(d.output) > 0 /\ NewErrs(prev, step.obs, "expr") = {}) => step.obs.hasout
 
+(* C11: run-time expression errors are contained, recorded and fail the workflow. *)
+C11_no_escape(step) == step.ret = "ok" \/ step.ret \in Rejections
+ErrNames(obs, idxs, t, tid) == \E i \in idxs : obs.errs[i].task = t /\ (tid = "none" \/ obs.errs[i].tr = tid)
+(* a failing condition or publish of a completed task is recorded with the task and transition *)
+C11_recorded_transition(d, h1, prev, step) ==
+  h1.compl # << >> =>
+     LET cm == h1.compl[1] IN
+     \A i \in 1..Len(cm.dec) :
+        (cm.dec[i].c = "E" \/ ~cm.dec[i].pubok) =>
+           ErrNames(step.obs, NewErrs(prev, step.obs, "expr") \cup {k \in 1..Len(prev.errs) : prev.errs[k].cls = "expr"},
+                    cm.t, Tid(cm.dec[i].dst, cm.dec[i].key))
+(* a task on offer whose action / input / items / concurrency / delay cannot be rendered *)
+RenderBad(d, t) == t \in TaskNames(d) /\ d.tasks[t].bad # ""
+C11_recorded_render(d, h0, prev, step) ==
+  (step.obs.q /\ prev.wf \in RunningSt /\ ~h0.rerun) =>
+     \A t \in TaskNames(d) :
+        (RenderBad(d, t) /\ h0.tok[t] > 0 /\ \E i \in 1..Len(prev.staged) : prev.staged[i].id = t /\ prev.staged[i].ready) =>
+           /\ ErrNames(step.obs, {k \in 1..Len(step.obs.errs) : step.obs.errs[k].cls = "expr"}, t, "none")
+           /\ step.obs.offers = << >>
+(* retry policy expressions are evaluated when the task starts (count, delay) and completes (when) *)
+C11_recorded_retry(d, h1, prev, step) ==
+  /\ (IsNewExec(prev, step) /\ step.call.task \in TaskNames(d) /\ d.tasks[step.call.task].rbad # ""
+        /\ RecSt(prev, step.call.task, step.call.route) # "retrying") =>
+        ErrNames(step.obs, {k \in 1..Len(step.obs.errs) : step.obs.errs[k].cls = "expr"}, step.call.task, "none")
+  /\ (IsCompletion(prev, step) /\ step.call.task \in TaskNames(d) /\ d.tasks[step.call.task].retry.on
+        /\ d.tasks[step.call.task].retry.when.k = "bad" /\ prev.wf \in ActiveSt) =>
+        ErrNames(step.obs, {k \in 1..Len(step.obs.errs) : step.obs.errs[k].cls = "expr"}, step.call.task, "none")
+C11_failed(prev, step) ==
+  NewErrs(prev, step.obs, "expr") # {} =>
+     \/ step.obs.wf = "failed"
+     \/ prev.wf = "canceled" /\ step.obs.wf = "canceled"
+C11_no_offer_after(step) == (step.obs.q /\ HasErr(step.obs, "expr")) => step.obs.offers = << >>
+
 (* C12: with-items. *)
 ItemOffers(d, step) == {i \in 1..Len(step.obs.offers) : step.obs.offers[i].nitems >= 0}
 InFlightOf(obs, t, r) == {k \in 1..Len(obs.infl) : obs.infl[k][1] = t /\ obs.infl[k][2] = r /\ obs.infl[k][3] >= 0}
@@ -485,6 +518,9 @@ C12_succ_iff(d, h1, prev, step) ==
 C12_drain(d, prev, step) ==
   (IsCompletion(prev, step) /\ HasItems(d, step.call.task)) =>
      InFlightOf(step.obs, step.call.task, step.call.route) = {}
+C12_hold(h1, step) ==
+  (step.obs.q /\ (h1.pauseReq \/ h1.cancelReq) /\ step.obs.wf \in {"pausing", "paused", "canceling", "canceled"}) =>
+     \A i \in 1..Len(step.obs.offers) : step.obs.offers[i].nitems < 0
 C12_empty(d, prev, step) ==
   (IsCompletion(prev, step) /\ HasItems(d, step.call.task) /\ d.tasks[step.call.task].items = 0) =>
      RecSt(step.obs, step.call.task, step.call.route) = "succeeded"
@@ -586,12 +622,19 @@ Failing(d, h0, h1, prev, step) ==
   FP("C10", "C10_no_offer",        C10_no_offer(h1, step)) \cup
   FP("C10", "C10_status",          C10_status(h1, step)) \cup
   FP("C10", "C10_output",          C10_output(d, prev, step)) \cup
+  FP("C11", "C11_no_escape",       C11_no_escape(step)) \cup
+  FP("C11", "C11_recorded_transition", C11_recorded_transition(d, h1, prev, step)) \cup
+  FP("C11", "C11_recorded_render", C11_recorded_render(d, h0, prev, step)) \cup
+  FP("C11", "C11_recorded_retry",  C11_recorded_retry(d, h1, prev, step)) \cup
+  FP("C11", "C11_failed",          C11_failed(prev, step)) \cup
+  FP("C11", "C11_no_offer_after",  C11_no_offer_after(step)) \cup
   FP("C12", "C12_shape",           C12_shape(d, step)) \cup
   FP("C12", "C12_once",            C12_once(d, h1, step)) \cup
   FP("C12", "C12_order",           C12_order(d, h1, step)) \cup
   FP("C12", "C12_window",          C12_window(d, step)) \cup
   FP("C12", "C12_all",             C12_all(d, h1, step)) \cup
   FP("C12", "C12_succ_iff",        C12_succ_iff(d, h1, prev, step)) \cup
+  FP("C12", "C12_hold",            C12_hold(h1, step)) \cup
   FP("C12", "C12_drain",           C12_drain(d, prev, step)) \cup
   FP("C12", "C12_empty",           C12_empty(d, prev, step)) \cup
   FP("C13", "C13_bound",           C13_bound(d, h1, prev, step)) \cup
